@@ -1,7 +1,14 @@
 """stubgen prints the metadata of Annotated[T, (..)] as if it were a type: ('unit', 1) becomes tuple[unit, 1].
 
 Exit status 1 = defect present, 0 = absent, 2 = inconclusive (preconditions of the input failed).
-Mechanism keys: structure:parse-only:annotation-changed:param:Annotated, structure:parse-only:annotation-changed:return:Annotated, structure:parse-only:annotation-changed:variable:Annotated, structure:semantic:annotation-changed:param:Annotated, structure:semantic:annotation-changed:return:Annotated, structure:semantic:annotation-changed:variable:Annotated"""
+Mechanism keys:
+  structure:parse-only:annotation-changed:param:Annotated
+  structure:parse-only:annotation-changed:return:Annotated
+  structure:parse-only:annotation-changed:variable:Annotated
+  structure:semantic:annotation-changed:param:Annotated
+  structure:semantic:annotation-changed:return:Annotated
+  structure:semantic:annotation-changed:variable:Annotated
+"""
 import os
 import sys
 
